@@ -118,9 +118,17 @@ class PW(CombinatorialClass):
     __str__ = __repr__
 
 
+_TT_CACHE = {}
+
+
 def true_terms(c, n):
-    """brute force: Counter parameter-tuple -> number of objects of size n (independent of the library)"""
-    return Counter(tuple(stat(w, l, f) for _, l, f in c.params) for w in c.words(n))
+    """brute force: Counter parameter-tuple -> number of objects of size n (independent of the library); memoised"""
+    key = (c, n)
+    if key not in _TT_CACHE:
+        if len(_TT_CACHE) > 200000:
+            _TT_CACHE.clear()
+        _TT_CACHE[key] = Counter(tuple(stat(w, l, f) for _, l, f in c.params) for w in c.words(n))
+    return Counter(_TT_CACHE[key])
 
 
 
